@@ -122,6 +122,11 @@ func interpFieldWrites(c *Ctx) map[string][]fieldWrite {
 					// &p.f passed to a call (incl. as receiver): escape / mutation through pointer
 					if fa, ok := a.(*ssa.FieldAddr); ok {
 						if f, x := fieldOfAddr(fa); f != nil && isInterp(x.Type()) {
+							if isInterp(f.Type()) {
+								// a component struct of the interpreter handed to one of its own methods: its fields are
+								// followed there as fields of the interpreter
+								continue
+							}
 							addw(f.Name(), fn, "address-passed", in.Pos(), nil)
 						}
 					}
@@ -444,6 +449,7 @@ func ruleReset(c *Ctx) {
 	}
 	// companions: every store outside the reset functions takes its value from a vars field, or sits in setSpecial's case of a vars special
 	setSpecialCaseFields := setSpecialCaseStores(c)
+	setSpecialRegion := c.exclusiveRegion("interp", c.ssaFunc("interp", "interp.setSpecial"))
 	resetFns := map[*ssa.Function]bool{resetCore: true, resetVars: true, resetRand: true, newInterp: true}
 	// a helper whose only callers are reset/construction functions is part of them
 	for changed := true; changed; {
@@ -506,7 +512,7 @@ func ruleReset(c *Ctx) {
 				}
 			}
 			for _, v := range varsSpecials {
-				if setSpecialCaseFields[v][f] && w.fn.Name() == "setSpecial" {
+				if setSpecialCaseFields[v][f] && setSpecialRegion[w.fn] {
 					okv = true
 				}
 			}
@@ -805,6 +811,8 @@ func setSpecialCaseStores(c *Ctx) map[string]map[string]bool {
 		return out
 	}
 	info := c.pkg("interp").TypesInfo
+	root := c.ssaFunc("interp", "interp.setSpecial")
+	region := c.exclusiveRegion("interp", root)
 	ast.Inspect(fd.Body, func(n ast.Node) bool {
 		cc, ok := n.(*ast.CaseClause)
 		if !ok {
@@ -818,8 +826,10 @@ func setSpecialCaseStores(c *Ctx) map[string]map[string]bool {
 			if out[name] == nil {
 				out[name] = map[string]bool{}
 			}
-			for _, s := range cc.Body {
-				ast.Inspect(s, func(m ast.Node) bool {
+			// the assignments of the clause, and of the setter helpers it calls that belong to setSpecial alone
+			var collect func(n ast.Node, depth int)
+			collect = func(n ast.Node, depth int) {
+				ast.Inspect(n, func(m ast.Node) bool {
 					if as, ok := m.(*ast.AssignStmt); ok {
 						for _, l := range as.Lhs {
 							if se, ok := l.(*ast.SelectorExpr); ok {
@@ -829,8 +839,22 @@ func setSpecialCaseStores(c *Ctx) map[string]map[string]bool {
 							}
 						}
 					}
+					if call, ok := m.(*ast.CallExpr); ok && depth < 3 {
+						if f := calleeOf(info, call); f != nil && f.Pkg() == c.pkg("interp").Types {
+							for g := range region {
+								if g.Object() == types.Object(f) && g != root {
+									if hd, ok := g.Syntax().(*ast.FuncDecl); ok && hd.Body != nil {
+										collect(hd.Body, depth+1)
+									}
+								}
+							}
+						}
+					}
 					return true
 				})
+			}
+			for _, s := range cc.Body {
+				collect(s, 0)
 			}
 		}
 		return true
